@@ -17,6 +17,12 @@ policies, n_jobs 1..6, both weight kinds; optionally a third (frequency) column 
 the reader repeats a line that many times, so the model is asked for the
 expanded events (one activation column per repetition, none for frequency 0);
 an empty cue field is read as the cue named "".
+Multi-process tie (`mp_model`): for every matrix case with n_jobs >= 2 the driver is
+ALSO asked for the model of the n_jobs >= 2 path (op `activation_mp`,
+PyndlModel/ActivationMP.lean: flat shared buffer, one column-write task per event)
+with a completion order drawn by the harness (a random permutation of the event
+indices); activation() must equal it (it equals the single-process model for every
+permutation by C12 activation_mp_eq_single, so this is a cheap consistency tie).
 """
 import gen
 from common import rng, frac
@@ -33,6 +39,18 @@ def model_request(t):
     for k, c in enumerate(t['events']):
         evs += [list(c) if c else ['']] * (1 if t.get('freq') is None else t['freq'][k])
     return dict({k: v for k, v in t.items() if k not in ('as_path', 'freq', 'file_outcomes')}, events=evs)
+
+
+def mp_request(t, r):
+    """the request for the multi-process model of a matrix case with n_jobs >= 2 (None otherwise): the
+    model request plus a harness-chosen completion order of the per-event tasks"""
+    if t['kind'] != 'matrix' or t.get('n_jobs', 1) < 2:
+        return None
+    q = dict(model_request(t), op='activation_mp')
+    order = list(range(len(q['events'])))
+    r.shuffle(order)
+    q['order'] = order
+    return q
 
 
 def problem(t, impl, model):
@@ -168,8 +186,23 @@ def run(rep, pool, driver, tier):
     tasks += [draw(rp, True) for i in range(70 if quick else 900)]
     impls = pool.map(tasks)
     models = driver.ask([model_request(t) for t in tasks])
+    ro = rng('C12/mp_order')
+    mp_reqs = [mp_request(t, ro) for t in tasks]
+    mp_models = iter(driver.ask([q for q in mp_reqs if q is not None]))
     reported = 0
-    for t, impl, model in zip(tasks, impls, models):
+    for t, impl, model, mpq in zip(tasks, impls, models, mp_reqs):
+        if mpq is not None:
+            mpm = next(mp_models)
+            rep.count('mp_model/n_events:%s' % min(len(mpq['events']), 3))
+            rep.count('mp_model/order:%s' % ('identity' if mpq['order'] == sorted(mpq['order']) else 'permuted'))
+            if {k: v for k, v in mpm.items() if k != 'id'} != {k: v for k, v in model.items() if k != 'id'}:
+                rep.violation({'what': 'the multi-process model (completion order %r) and the single-process model differ: %r vs %r'
+                                       % (mpq['order'], mpm, model), 'input': mpq,
+                               'theorem_or_stream': 'C12 activation_mp_eq_single (model self-consistency; a framework defect, not one of the code)'})
+            pm = problem(t, impl, mpm)
+            if pm and not problem(t, impl, model):
+                rep.violation({'what': 'multi-process model: ' + pm, 'input': t, 'observed': impl, 'expected': mpm, 'python': snippet(t),
+                               'theorem_or_stream': 'C12 mp_cells_written_once: activation(n_jobs>=2) vs the multi-process model, order %r' % (mpq['order'],)})
         has_dup = any(len(set(e)) != len(e) for e in t['events'])
         stream = 'activation_' + ('path_' if t.get('as_path') else '') + t['kind']
         rep.case({k: v for k, v in t.items() if k != 'op'}, nontrivial=len(t['events']) >= 1, stream=stream)
